@@ -3,6 +3,7 @@ package dns
 func init() {
 	vRegister("H_C01_record", H_C01_record)
 	vRegister("H_C01_unknown", H_C01_unknown)
+	vRegister("H_C01_octetstrings", H_C01_octetstrings)
 	vRegister("H_C01_header", H_C01_header)
 	vRegister("H_C01_vacuity", H_C01_vacuity)
 }
@@ -21,10 +22,18 @@ func vPickType() uint16 {
 	return t
 }
 
+// H_C01_octetstrings: the record battery for the types that hold text with arbitrary octets (run with gen.anystr=1:
+// quotes, backslashes, blanks, NUL, non-ASCII in character-strings and in URI targets / CAA values).
+func H_C01_octetstrings() {
+	ts := []uint16{TypeURI, TypeCAA, TypeTXT, TypeHINFO, TypeNAPTR, TypeX25}
+	vC01Record(ts[vChoice("otype", len(ts))])
+}
+
 // H_C01_record: for every registry type with a layout entry: pack(record) is exactly the RFC
 // layout of its fields, unpack(layout) yields those fields, and re-packing reproduces the octets.
-func H_C01_record() {
-	t := vPickType()
+func H_C01_record() { vC01Record(vPickType()) }
+
+func vC01Record(t uint16) {
 	rr, w, g := vBuildRR("r.", t)
 	if rr == nil {
 		vAssert(false, "type-has-layout")
